@@ -311,7 +311,7 @@ func Check() *common.Check {
 		Rule: "(1) all strings of <=3 (quick) / <=4 (thorough) fragments over lexgen's 37-fragment lexical alphabet and over a 14-fragment hostile alphabet (invalid UTF-8, NUL, letters whose upper case has another byte length, quote openers, injection snippets), and all character strings up to length 5..9 (+1 thorough) over six delimiter families (dollar quoting, quotes and backslash, comment marks, bracket / back-tick identifiers, mixed), bare and inside a SELECT; " +
 			"(2) all lexeme sequences of length <=3 (quick) / <=4 (thorough, reduced alphabet) over a 60-lexeme keyword/operator/literal alphabet; (3) all parser-token sequences of length <=2 over every token type the library names plus 8 values no constant names (negative, past the largest, huge), and <=3 over 50 core types plus two unnamed values, " +
 			"each with and without a trailing EOF token (length-3 slices without EOF: thorough only) and with empty literals, x position mappings shorter / equal / longer than the token slice; (4) every token prefix of every distinct sqlgen statement, every byte prefix (step 1 quick up to 600 bytes) of every corpus file, " +
-			"every single-token deletion / duplication / replacement by 12 hostile tokens of a spread of statements; (5) a length ladder (every lexeme length 0..160/600 in 12 error templates and as token literals), a depth ladder (13 nesting / chaining constructs at every depth 1..110) and 12 saturation histories of 2200 distinct unexpected-token texts each (with / without a keyword suggestion, mixed in both orders) through the process-wide suggestion cache; (6) after-failure histories: every rejected single-token deletion of every representative expression statement (strict, validating, recovering and formatting calls) followed in the same process - one P, collector off, pools emptied first - by every representative expression statement. Each input goes through every public entry point (about 60 for text, incl. every dialect and strict mode; on success also serialisers, extractors, scanner, traversal). " +
+			"every single-token deletion / duplication / replacement by 12 hostile tokens of a spread of statements; (5) a length ladder (every lexeme length 0..160/600 in 12 error templates and as token literals), a depth ladder (13 nesting / chaining constructs at every depth 1..110) and 12 saturation histories of 2200 distinct unexpected-token texts each (with / without a keyword suggestion, mixed in both orders) through the process-wide suggestion cache; (7) every keyword of the model grammar appended to every DDL statement and to an even spread (thorough: all) of the clause-option and DML statements, through the core entry points; (6) after-failure histories: every rejected single-token deletion of every representative expression statement (strict, validating, recovering and formatting calls) followed in the same process - one P, collector off, pools emptied first - by every representative expression statement. Each input goes through every public entry point (about 60 for text, incl. every dialect and strict mode; on success also serialisers, extractors, scanner, traversal). " +
 			"Oracle: the call returns; no panic reaches the caller; the worker process does not die and does not go silent. distinct = distinct input; non-trivial = the input is accepted by the default parser, so the tree consumers run too",
 		Assume: []string{"a hang is 'no progress of a worker for 120 s' (cases take microseconds)", "inputs near the 10 MiB limit are exercised by C02 / C20 families, not here"},
 		Enumerate: func(e *common.Enum) {
@@ -558,6 +558,52 @@ func Check() *common.Check {
 						}
 						c.Outcome("after-failure:returned")
 						c.NonTrivial()
+					})
+				}
+			}
+			// a keyword behind a complete statement: clause loops that read on "while the next word is one of ours" (table
+			// options, modifiers, trailing clauses) meet every word of the grammar right after every clause-option, DML and
+			// DDL statement - through the core entry points
+			kwSet := map[string]bool{}
+			var tails []sqlgen.S
+			seenTail := map[string]bool{}
+			collect := func(name string, st sqlgen.S) {
+				if sql := st.SQL(); !seenTail[sql] {
+					seenTail[sql] = true
+					tails = append(tails, st)
+				}
+				for _, t := range st.Toks {
+					if t.Kw {
+						kwSet[strings.ToUpper(t.S)] = true
+					}
+				}
+			}
+			sqlgen.ClauseOptions(collect)
+			sqlgen.DMLCases(collect)
+			sqlgen.DDLCases(collect)
+			var kws []string
+			for k := range kwSet {
+				kws = append(kws, k)
+			}
+			sort.Strings(kws)
+			tailStep := 1
+			if !e.Thorough() {
+				tailStep = len(tails)/250 + 1 // quick: an even spread of about 250 statements (every DDL statement: see below)
+			}
+			for i, st := range tails {
+				if i%tailStep != 0 && st.Kind != "create-table" && st.Kind != "create-index" && st.Kind != "create-view" && st.Kind != "create-matview" && st.Kind != "alter-table" {
+					continue
+				}
+				base := st.SQL()
+				for _, k := range kws {
+					text := base + " " + k
+					e.Do("suffix-keyword|"+text, func(c *common.Ctx) {
+						c.Input(text)
+						call(c, "gosqlx.Parse", func() { _, _ = gosqlx.Parse(text) })
+						call(c, "gosqlx.ParseWithRecovery", func() { _, _ = gosqlx.ParseWithRecovery(text) })
+						call(c, "gosqlx.Validate", func() { _ = gosqlx.Validate(text) })
+						call(c, "gosqlx.Format", func() { _, _ = gosqlx.Format(text, gosqlx.DefaultFormatOptions()) })
+						c.Outcome("suffix-keyword")
 					})
 				}
 			}
